@@ -1,6 +1,6 @@
 (* Entry point of the executable model: one case tree in, one result tree out. The first leaf selects
    the property, the second the operation. The harness sends the same case to the implementation. *)
-From ToughV Require Import Model.Base Model.Pct Model.Json Model.CJson Model.ClientRun Model.TName.
+From ToughV Require Import Model.Base Model.Pct Model.Json Model.CJson Model.ClientRun Model.TName Model.Http.
 
 Definition run_C16 (op : N) (a : list tree) : tree :=
   match op, a with
@@ -34,6 +34,14 @@ Definition run_C08 (op : N) (a : list tree) : tree :=
   | _ => T [L 999]
   end.
 
+(* C18: op 0 one fetch, op 1 a batch of fetches (the harness runs a batch concurrently) *)
+Definition run_C18 (op : N) (a : list tree) : tree :=
+  if op =? 0 then run_http_case a
+  else match a with
+       | [batch] => T (map (fun c => run_http_case (t_list c)) (t_list batch))
+       | _ => T [L 999]
+       end.
+
 Definition run_case (t : tree) : tree :=
   match t with
   | T (L p :: L op :: args) =>
@@ -41,6 +49,7 @@ Definition run_case (t : tree) : tree :=
       else if p =? 11 then run_C11 op args
       else if p =? 8 then run_C08 op args
       else if p =? 6 then run_client op args
+      else if p =? 18 then run_C18 op args
       else T [L 999]
   | _ => T [L 999]
   end.
